@@ -66,10 +66,14 @@ type c07Inv struct {
 type c07World struct {
 	// 0 mocknet, 1 tcp+noise+yamux, 2 the same through a circuit-v2 relay (limited connection),
 	// 3 mocknet with a BlankHost listener, 4 like 1 with a short negotiation timeout,
-	// 5 like 1 (real resource managers, limits) with a BlankHost listener
+	// 5 like 1 (real resource managers, limits) with a BlankHost listener, 6 with a BlankHost dialer
 	kind     int64
 	negto    time.Duration // the hosts' negotiation timeout when it is short enough to outwait
 	blankL   bool
+	blankD   bool
+	timeouts int // opens that ran into their deadline (a sick world is skipped)
+	closeFails int
+	closeRequestless bool // the next requestless handler closes its end instead of holding it
 	hasScope bool
 	limited  bool
 	d, l     host.Host
@@ -95,7 +99,7 @@ func (w *c07World) fail(s string) {
 }
 
 func c07Limiter(lim []int64, inbound bool) rcmgr.Limiter {
-	cfg := rcmgr.PartialLimitConfig{Protocol: map[protocol.ID]rcmgr.ResourceLimits{}}
+	cfg := rcmgr.PartialLimitConfig{Protocol: map[protocol.ID]rcmgr.ResourceLimits{}, ProtocolPeer: map[protocol.ID]rcmgr.ResourceLimits{}}
 	for i, v := range lim {
 		if v < 0 {
 			continue
@@ -104,7 +108,12 @@ func c07Limiter(lim []int64, inbound bool) rcmgr.Limiter {
 		if v == 0 {
 			lv = rcmgr.BlockAllLimit
 		}
-		if inbound {
+		if inbound && i%2 == 1 {
+			// the limit is the per-peer one; the protocol as a whole has room for one more
+			// (with a single remote peer the effective limit is the same)
+			cfg.ProtocolPeer[c07Names[i]] = rcmgr.ResourceLimits{StreamsInbound: lv}
+			cfg.Protocol[c07Names[i]] = rcmgr.ResourceLimits{StreamsInbound: rcmgr.LimitVal(v + 1)}
+		} else if inbound {
 			cfg.Protocol[c07Names[i]] = rcmgr.ResourceLimits{StreamsInbound: lv}
 		} else {
 			cfg.Protocol[c07Names[i]] = rcmgr.ResourceLimits{StreamsOutbound: lv}
@@ -185,7 +194,7 @@ func c07NewWorld(t *testing.T, kind int64, limD, limL []int64) *c07World {
 			}
 			return h
 		}
-		if kind == 1 || kind == 4 || kind == 5 {
+		if kind == 1 || kind == 4 || kind == 5 || kind == 6 {
 			if kind == 4 {
 				// hosts read the package default when they are built
 				old := bhost.DefaultNegotiationTimeout
@@ -194,8 +203,13 @@ func c07NewWorld(t *testing.T, kind int64, limD, limL []int64) *c07World {
 				defer func() { bhost.DefaultNegotiationTimeout = old }()
 			}
 			w.d, w.l = mk(w.rmD, true), mk(w.rmL, true)
-			lh := w.l
-			w.closers = append(w.closers, func() { w.d.Close(); lh.Close() })
+			lh, dh := w.l, w.d
+			w.closers = append(w.closers, func() { dh.Close(); lh.Close() })
+			if kind == 6 {
+				// a BlankHost dialer (NewStream always negotiates) on a network with the real resource manager
+				w.blankD = true
+				w.d = blankhost.NewBlankHost(dh.Network())
+			}
 			if kind == 5 {
 				// the thinnest host on a network that carries the REAL resource
 				// manager (a second SetProtocol on a stream is refused there)
@@ -253,7 +267,9 @@ func (w *c07World) identifyWait() {
 		IDService() identify.IDService
 	}
 	for _, c := range w.d.Network().ConnsToPeer(w.l.ID()) {
-		<-w.d.(idw).IDService().IdentifyWait(c)
+		if di, ok := w.d.(idw); ok {
+			<-di.IDService().IdentifyWait(c)
+		}
 	}
 	// the listener identifies the dialer too; wait until it has (its
 	// identify stream is then gone from the connection)
